@@ -129,7 +129,6 @@ Proof.
     rewrite Hn. reflexivity.
   - (* plain delay: kept continuous when dde_approx > 0; with dde_approx = 0 both sides are the order-0 pass-through *)
     rewrite Habove, Hrate. unfold slot_rate, slot_order, slot_m. rewrite Ed.
-    apply andb_prop in Hd. destruct Hd as [Hd _].
     destruct (continuous c) eqn:Hc.
     + rewrite (of_nat_pos_ne d Hd). reflexivity.
     + assert (H0 : gdde c = 0%nat).
@@ -138,6 +137,47 @@ Proof.
   - destruct (gadd_delay c (gkey c (gsrc e))) eqn:Ga; [|reflexivity].
     rewrite Hrate. rewrite orb_false_r in Hker. apply Nat.eqb_eq in Hker.
     unfold slot_rate. rewrite Hker. destruct (Qceqb (slot_m c e) 0); rewrite ?zero_div; reflexivity.
+Qed.
+
+Lemma steps_agree c : g_steps_exact c = true -> impl_steps c = spec_steps c.
+Proof.
+  intros H. unfold impl_steps, spec_steps. apply map_ext_in. intros e He.
+  unfold g_steps_exact in H. rewrite forallb_forall in H. apply Nat.eqb_eq, H, He.
+Qed.
+
+(* what g_steps_exact means: outside D111 (no plain delay shares its (merged) source variable with a spread edge, or the repair is in)
+   and inside the property's scope (plain delays of at least two steps) the compiled discrete delays are the specified ones *)
+Lemma list_max_ge' l x : In x l -> (x <= list_max l)%nat.
+Proof.
+  intros H. pose proof (proj1 (list_max_le l (list_max l)) (Nat.le_refl _)) as F.
+  rewrite Forall_forall in F. apply F, H.
+Qed.
+
+Theorem steps_exact_of_guards c :
+  g_no_plain_in_spread_group c = true -> g_plain_ge2 c = true -> g_steps_exact c = true.
+Proof.
+  intros Hm Hs. unfold g_steps_exact. apply forallb_forall. intros e He. apply Nat.eqb_eq.
+  unfold impl_step, spec_step, continuous, fixed_dde_steps. cbn [andb].
+  unfold g_no_plain_in_spread_group in Hm. unfold g_plain_ge2 in Hs.
+  destruct (Nat.ltb 0 (gdde c)) eqn:Hd; [reflexivity|]. rewrite orb_false_r in Hm. cbn [orb] in Hs.
+  rewrite forallb_forall in Hs. specialize (Hs e He).
+  assert (Hgs : forall d, gd e = Some (d, None) -> group_spread c (gkey c (gsrc e)) && negb fixed_mixed_kinds = false).
+  { intros d Ed. destruct fixed_mixed_kinds; [apply andb_false_r|]. cbn [orb] in Hm.
+    rewrite forallb_forall in Hm. specialize (Hm e He). rewrite Ed in Hm. apply negb_true_iff in Hm. rewrite Hm. reflexivity. }
+  unfold plain_steps in *. destruct (gd e) as [[d [s|]]|] eqn:Ed.
+  - destruct (group_spread c (gkey c (gsrc e)) && negb fixed_mixed_kinds); [reflexivity|].
+    destruct (Nat.ltb 1 _); reflexivity.
+  - rewrite (Hgs d eq_refl). apply Nat.leb_le in Hs.
+    assert (Hin : In (steps_of d (gdt c)) (map (fun e0 => match gd e0 with Some (d0, None) => steps_of d0 (gdt c) | _ => O end)
+                      (filter (fun e' => negb (has_spread e')) (ggroup c (gkey c (gsrc e)))))).
+    { apply in_map_iff. exists e. rewrite Ed. split; [reflexivity|]. apply filter_In. split.
+      - unfold ggroup. apply filter_In. split; [exact He|apply Nat.eqb_refl].
+      - unfold has_spread. rewrite Ed. reflexivity. }
+    apply list_max_ge' in Hin.
+    destruct (Nat.ltb_spec 1 (list_max (map (fun e0 => match gd e0 with Some (d0, None) => steps_of d0 (gdt c) | _ => O end)
+                (filter (fun e' => negb (has_spread e')) (ggroup c (gkey c (gsrc e))))))); [reflexivity|lia].
+  - destruct (group_spread c (gkey c (gsrc e)) && negb fixed_mixed_kinds); [reflexivity|].
+    destruct (Nat.ltb 1 _); reflexivity.
 Qed.
 
 Theorem params_agree c : gwf c = true -> gguards c = true -> impl_params c = spec_params c.
@@ -149,16 +189,18 @@ Qed.
 Lemma gcrashes_never c : gcrashes c = false.
 Proof. reflexivity. Qed.
 
-Theorem gfull_scope c n : gwf c = true -> g_above_step c = true -> g_rates_exact c = true -> gimpl_run c n = Ok (gspec_run c n).
+Theorem gfull_scope c n : gwf c = true -> g_above_step c = true -> g_rates_exact c = true -> g_steps_exact c = true ->
+  gimpl_run c n = Ok (gspec_run c n).
 Proof.
-  intros Hwf Ha Hr. unfold gimpl_run, gspec_run. rewrite gcrashes_never, (params_agree_scope c Hwf Ha Hr).
+  intros Hwf Ha Hr Hs. unfold gimpl_run, gspec_run. rewrite gcrashes_never, (params_agree_scope c Hwf Ha Hr), (steps_agree c Hs).
   change (impl_srcs c) with (spec_srcs c). reflexivity.
 Qed.
 
 Theorem gimpl_refines_spec c n : gwf c = true -> gguards c = true -> gimpl_run c n = Ok (gspec_run c n).
 Proof.
   intros Hwf Hg. unfold gimpl_run, gspec_run. rewrite (params_agree c Hwf Hg).
-  unfold gguards in Hg. apply andb_prop in Hg. destruct Hg as [_ Hc]. unfold g_no_scalar_shared_chain in Hc.
+  unfold gguards in Hg. apply andb_prop in Hg. destruct Hg as [Hg Hc]. apply andb_prop in Hg. destruct Hg as [_ Hs].
+  rewrite (steps_agree c Hs). unfold g_no_scalar_shared_chain in Hc.
   change (impl_srcs c) with (spec_srcs c).
   destruct (gcrashes c); [discriminate|reflexivity].
 Qed.
